@@ -127,11 +127,18 @@ def find_all_code(src, mask, regex, start=0, end=None):
 def block_after(src, mask, pos):
     """Span (open, close) of the first code '{' at or after pos."""
     i = pos
+    depth = 0
     while i < len(src):
-        if mask[i] and src[i] == "{":
-            return i, match_brace(src, mask, i)
-        if mask[i] and src[i] == ";":
-            raise LostAnchor("item has no body")
+        if mask[i]:
+            ch = src[i]
+            if ch in "([":
+                depth += 1
+            elif ch in ")]":
+                depth -= 1
+            elif ch == "{" and depth <= 0:
+                return i, match_brace(src, mask, i)
+            elif ch == ";" and depth <= 0:
+                raise LostAnchor("item has no body")
         i += 1
     raise LostAnchor("no block")
 
@@ -371,3 +378,17 @@ def literal_axioms(text):
 
 def sha(text):
     return hashlib.sha256(text.encode()).hexdigest()[:16]
+
+
+def add_dummy_loop_decreases(fn_text):
+    """Bare mode only: give every `loop`/`while` a placeholder measure so that Verus gets past its syntactic
+    'loop must have a decreases clause' rule and reaches the recursion rule.  The measure is NOT claimed to be
+    valid; bare-mode runs are only inspected for the recursion error."""
+    mask = code_mask(fn_text)
+    sig_end = block_after(fn_text, mask, find_code(fn_text, mask, r"\bfn\b").end())[0]
+    ls = [m for m in find_all_code(fn_text, mask, r"\b(while|loop)\b") if m.start() > sig_end]
+    for mm in reversed(ls):
+        mask = code_mask(fn_text)
+        o, _ = block_after(fn_text, mask, mm.end())
+        fn_text = fn_text[:o].rstrip() + "\n decreases 0int,\n" + fn_text[o:]
+    return fn_text
